@@ -275,7 +275,7 @@ def exec_support(cx, s, comp):
 
 
 def execute(rec):
-    cx, err = guarded(lambda: Ctxt(rec), 120)
+    cx, err = DC.lib(lambda: Ctxt(rec), 900)
     if err:
         return [DC.basis_error_event(err)]
     events = [DC.basis_event(cx.mesh, cx.basis)]
@@ -299,7 +299,7 @@ def execute(rec):
                     else:
                         out = cx.basis.complement_dofs({f'k{i}': v for i, v in enumerate(views)})
                 return [_ints(a) for a in arrs], _ints(out)
-            r, err = guarded(call, 30)
+            r, err = DC.lib(call, 300)
             events.append({'a': 'Complement', 'form': q['form'], 'err': err, 'args': r[0] if r else [],
                            'out': r[1] if r else []})
             continue
@@ -319,7 +319,10 @@ def execute(rec):
                     j2 = op['sel2']
                     other = _view(cx, cx.forms(j2, sels[j2])[0], q['skip'] if q['skip'] else None)
                 return _apply(v, op, other)
-            r, err = guarded(call, 30)
+            r, err = DC.lib(call, 300)
+            if err and form[0].startswith('dict'):
+                continue        # the dictionary form is deprecated by the library itself (DeprecationWarning): if a version
+                                # stops accepting it, that is not a disagreement between ways of naming a selection
             item = {'form': form[0], 'err': err}
             item.update(r if r else ({'dict': []} if op['k'] in ('nodal', 'edge', 'facet', 'interior') else {'out': []}))
             res.append(item)
